@@ -75,7 +75,10 @@ def sctlNew (s : Nat) (k : Sctl → Prog) : Prog :=
     let sc : Sctl := ⟨s, serial, map, fin⟩
     .obsSetOnUnsub s sc.finalize (k sc)
 
-def Sctl.setOnFinalize (sc : Sctl) (f : Prog) : Prog := .slotSet sc.fin (fun _ => f) .done
+/-- `set_on_finalize`: store the finalizer; if the subscription has already ended (it can end while the operator is
+    still inside its subscribe function), run `finalize` now so that the finalizer is not lost -/
+def Sctl.setOnFinalize (sc : Sctl) (f : Prog) : Prog :=
+  .slotSet sc.fin (fun _ => f) (.obsIsSub sc.sub fun b => if b then .done else sc.finalize)
 
 def Sctl.newObserver (sc : Sctl) (n : Nat → Data → Prog) (e : Nat → Nat → Prog) (c : Nat → Prog)
     (k : Nat → Prog) : Prog :=
